@@ -375,3 +375,6 @@ def describe(scenario):
 
 def shrink_paths(scenario):
     return [("script",)]
+
+
+generate = gen_epi.with_backtest_driver(generate, 0.2)
